@@ -816,7 +816,7 @@ def gen_path_case(rng, flavour=None, thorough=False):
             f = lo + rng.randint(0, 20) * 50e9
             for _ in range(1 if tiny else rng.randint(1, 3)):
                 sw, br = rng.choice(SLOTS[:7])
-                nch = rng.randint(2, 4 if tiny else (6 if not thorough else 14))   # (one channel makes Edfa.interpol_params fail)
+                nch = rng.randint(1, 4 if tiny else (6 if not thorough else 14))
                 f_min = f + sw / 2
                 f_max = f_min + (nch - 1) * sw
                 if f_max + sw / 2 > hi:
